@@ -36,6 +36,14 @@ def anchors(a: Anchors):
            lambda fn: all(t in norm(ast.unparse(fn)) for t in ["_sl,_pads,_out_of_bound=_utils.make_slice_and_pad(s,e,size)", "exceptValueError:",
                                                                "return((slice(None),),None)", "sl_dst_list.append(_sl)", "s0,s1=_pads",
                                                                "sl_src_list.append(slice(s0,tsize-s1))", "sl_src_list.append(slice(None))"]))
+    from translate import forwards
+    SIM_PARAMS = ["order", "scale", "corner_safe"]
+    a.fact("sim_subset_forwards_options", SM, "TomogramSimulator.subset", "type(self)(order=self.order, scale=self._scale, corner_safe=self.corner_safe)",
+           lambda fn: forwards(fn, ("type(self)", "self.__class__"), SIM_PARAMS, {"order": ("self.order", "self._order"), "scale": ("self._scale", "self.scale"),
+                                                                                    "corner_safe": ("self.corner_safe", "self._corner_safe")}))
+    a.fact("sim_replace_forwards_options", SM, "TomogramSimulator.replace", "self.__class__(order=order, scale=scale, corner_safe=corner_safe); None -> own value; components copied",
+           lambda fn: forwards(fn, ("type(self)", "self.__class__"), SIM_PARAMS, {"order": ("order",), "scale": ("scale",), "corner_safe": ("corner_safe",)})
+           and all(f"if{k}isNone:{k}=self.{k}" in norm(ast.unparse(fn)) for k in SIM_PARAMS) and "out._components=self._components.copy()" in norm(ast.unparse(fn)))
     a.fact("sim_accumulates", SM, "TomogramSimulator._simulate", "tomogram[sl] += fragment; cval=0 affine_transform without prefilter",
            lambda fn: "tomogram[sl]+=img_fragment" in norm(ast.unparse(fn)) and "ifimg_fragmentisnotNone" in norm(ast.unparse(fn)))
     a.fact("sim_2d_projects_z", SM, "_simulate_2d_one", "np.sum(transformed[sl_src], axis=0); dst = sl_dst[1:]",
